@@ -126,6 +126,18 @@ class SimFS:
             return p
         return None
 
+    def _raise_missing(self, p):
+        """p does not exist: ENOTDIR if some ancestor is a regular file, else ENOENT (as the kernel's path walk reports)."""
+        q = posixpath.dirname(p)
+        while q.startswith(PREFIX):
+            a = self.nodes.get(q)
+            if a is not None:
+                if a.kind == 'file':
+                    raise NotADirectoryError(errno.ENOTDIR, os.strerror(errno.ENOTDIR), p)
+                break
+            q = posixpath.dirname(q)
+        raise FileNotFoundError(errno.ENOENT, os.strerror(errno.ENOENT), p)
+
     def _parent_check(self, p):
         parent = posixpath.dirname(p)
         n = self.nodes.get(parent)
@@ -347,7 +359,7 @@ class SimFS:
             return _real['listdir'](path)
         n = self.nodes.get(p)
         if n is None:
-            raise FileNotFoundError(errno.ENOENT, os.strerror(errno.ENOENT), p)
+            self._raise_missing(p)
         if n.kind != 'dir':
             raise NotADirectoryError(errno.ENOTDIR, os.strerror(errno.ENOTDIR), p)
         names = self._children(p)
@@ -360,7 +372,7 @@ class SimFS:
             return _real['scandir'](path)
         n = self.nodes.get(p)
         if n is None:
-            raise FileNotFoundError(errno.ENOENT, os.strerror(errno.ENOENT), p)
+            self._raise_missing(p)
         if n.kind != 'dir':
             raise NotADirectoryError(errno.ENOTDIR, os.strerror(errno.ENOTDIR), p)
         names = self._children(p)
@@ -475,13 +487,26 @@ class SimFS:
             return _real[name](src, dst, src_dir_fd=src_dir_fd, dst_dir_fd=dst_dir_fd)
         if a is None or b is None:
             raise OSError(errno.EXDEV, os.strerror(errno.EXDEV), os.fspath(src))       # across the real and the simulated tree
+        # the kernel walks both parent paths first, then looks the source up, then checks the types
+        self._parent_check(a)
+        self._parent_check(b)
         n = self.nodes.get(a)
         if n is None:
             raise FileNotFoundError(errno.ENOENT, os.strerror(errno.ENOENT), a)
-        self._parent_check(b)
         t = self.nodes.get(b)
-        if t is not None and t.kind == 'dir' and n.kind != 'dir':
-            raise IsADirectoryError(errno.EISDIR, os.strerror(errno.EISDIR), b)
+        if a == b:
+            return None
+        if n.kind == 'dir' and (b + '/').startswith(a + '/'):
+            raise OSError(errno.EINVAL, os.strerror(errno.EINVAL), a)
+        if t is not None:
+            if t.kind == 'dir' and (a + '/').startswith(b + '/'):
+                raise OSError(errno.ENOTEMPTY, os.strerror(errno.ENOTEMPTY), b)        # the target is an ancestor of the source
+            if t.kind == 'dir' and n.kind != 'dir':
+                raise IsADirectoryError(errno.EISDIR, os.strerror(errno.EISDIR), b)
+            if t.kind != 'dir' and n.kind == 'dir':
+                raise NotADirectoryError(errno.ENOTDIR, os.strerror(errno.ENOTDIR), b)
+            if t.kind == 'dir' and any(q.startswith(b + '/') for q in self.nodes):
+                raise OSError(errno.ENOTEMPTY, os.strerror(errno.ENOTEMPTY), b)
         if n.kind == 'dir':
             pre = a + '/'
             for q in [q for q in self.nodes if q.startswith(pre)]:
@@ -502,7 +527,7 @@ class SimFS:
             return _real['unlink'](path, dir_fd=dir_fd)
         n = self.nodes.get(p)
         if n is None:
-            raise FileNotFoundError(errno.ENOENT, os.strerror(errno.ENOENT), p)
+            self._raise_missing(p)
         if n.kind == 'dir':
             raise IsADirectoryError(errno.EISDIR, os.strerror(errno.EISDIR), p)
         del self.nodes[p]
@@ -514,7 +539,7 @@ class SimFS:
             return _real['rmdir'](path, dir_fd=dir_fd)
         n = self.nodes.get(p)
         if n is None:
-            raise FileNotFoundError(errno.ENOENT, os.strerror(errno.ENOENT), p)
+            self._raise_missing(p)
         if n.kind != 'dir':
             raise NotADirectoryError(errno.ENOTDIR, os.strerror(errno.ENOTDIR), p)
         if any(q.startswith(p + '/') for q in self.nodes):
@@ -701,6 +726,9 @@ class FakeRaw(io.RawIOBase):
             raise OSError(eno, os.strerror(eno), path)
         fs._actor('open', path)
         node = fs.nodes.get(path)
+        if node is not None and excl and create:
+            fs._emit('open', [path, mode], 'EEXIST')
+            raise FileExistsError(errno.EEXIST, os.strerror(errno.EEXIST), path)
         if node is not None and node.kind == 'dir':
             fs._emit('open', [path, mode], 'EISDIR')
             raise IsADirectoryError(errno.EISDIR, os.strerror(errno.EISDIR), path)
